@@ -35,6 +35,18 @@ pub enum MKind {
     SendVecZc { a: u16, b: u16 },
     /// `AsyncFd::write(Vec<u8>)` (single completion; mixed in).
     Write { len: u16 },
+    /// `Ring::pollable(sq)` of a second ring: a multishot poll whose results
+    /// all look the same (the poll mask), unlike accepted connections.
+    Pollable,
+}
+
+impl MKind {
+    fn multishot(&self) -> bool {
+        matches!(self, MKind::Accept | MKind::Pollable)
+    }
+    fn zero_copy(&self) -> bool {
+        matches!(self, MKind::SendZc { .. } | MKind::SendVecZc { .. })
+    }
 }
 
 #[derive(Clone, Debug, Serialize, Deserialize)]
@@ -76,6 +88,7 @@ pub struct MultiCase {
 pub fn strategy() -> impl Strategy<Value = MultiCase> {
     let kind = prop_oneof![
         4 => Just(MKind::Accept),
+        2 => Just(MKind::Pollable),
         3 => (1u16..600).prop_map(|len| MKind::SendZc { len }),
         2 => (0u16..300, 1u16..300).prop_map(|(a, b)| MKind::SendVecZc { a, b }),
         1 => (1u16..300).prop_map(|len| MKind::Write { len }),
@@ -105,7 +118,7 @@ pub fn strategy() -> impl Strategy<Value = MultiCase> {
         2 => (any::<u16>(), any::<bool>(), any::<u16>()).prop_map(|(op, ok, frac)| MStep::Post { op, ok, last: false, frac }),
     ];
     let zc_kind = prop_oneof![(1u16..600).prop_map(|len| MKind::SendZc { len }), (0u16..300, 1u16..300).prop_map(|(a, b)| MKind::SendVecZc { a, b })];
-    let kind2 = prop_oneof![Just(MKind::Accept), (1u16..300).prop_map(|len| MKind::Write { len }), (1u16..600).prop_map(|len| MKind::SendZc { len })];
+    let kind2 = prop_oneof![Just(MKind::Accept), Just(MKind::Pollable), (1u16..300).prop_map(|len| MKind::Write { len }), (1u16..600).prop_map(|len| MKind::SendZc { len })];
     let teardown = (zc_kind, proptest::collection::vec(kind2, 0..=2), any::<bool>(), any::<bool>(), any::<u16>(), proptest::collection::vec(tail_step, 0..8)).prop_map(|(first, rest, drop_before_ring, poll_between, frac, tail)| {
         let mut ops = vec![first];
         ops.extend(rest);
@@ -131,6 +144,7 @@ pub fn strategy() -> impl Strategy<Value = MultiCase> {
 
 enum Fut {
     Accept(Pin<Box<a10::net::MultishotAccept<'static>>>),
+    Pollable(Pin<Box<a10::poll::Pollable>>),
     Count(Pin<Box<dyn Future<Output = std::io::Result<usize>>>>),
 }
 
@@ -190,6 +204,8 @@ struct Exec<'c> {
     accepted: Vec<a10::AsyncFd>,
     cancel_script: Arc<Mutex<BTreeMap<u64, CancelChoice>>>,
     ring_gone: bool,
+    /// A second ring, the one `Pollable` operations watch.
+    other: Option<(a10::Ring, i32)>,
 }
 
 const ERRS: &[i32] = &[libc::EMFILE, libc::ECONNABORTED, libc::ENOMEM, libc::EPIPE, libc::ECONNRESET, libc::ENOBUFS];
@@ -259,7 +275,7 @@ impl<'c> Exec<'c> {
                     while op.in_cq.front().is_some_and(|i| i.seq == seq) {
                         let item = op.in_cq.pop_front().unwrap();
                         let is_final = item.flags & abi::CQE_F_MORE == 0;
-                        let zc = !matches!(op.kind, MKind::Accept | MKind::Write { .. });
+                        let zc = op.kind.zero_copy();
                         if zc {
                             if item.flags & abi::CQE_F_NOTIF != 0 {
                                 // Carries no result.
@@ -310,7 +326,7 @@ impl<'c> Exec<'c> {
     }
 
     fn is_multishot(&self, i: usize) -> bool {
-        self.ops[i].kind == MKind::Accept
+        self.ops[i].kind.multishot()
     }
 
     fn build(&mut self, i: usize) {
@@ -332,6 +348,12 @@ impl<'c> Exec<'c> {
             MKind::Accept => {
                 let _s = track::scope(track::TAG_A10);
                 Fut::Accept(Box::pin(afd.multishot_accept()))
+            }
+            MKind::Pollable => {
+                let sq = self.world.sq();
+                let other = &self.other.as_ref().expect("second ring").0;
+                let _s = track::scope(track::TAG_A10);
+                Fut::Pollable(Box::pin(other.pollable(sq)))
             }
             MKind::SendZc { len } => {
                 let v = mk(len as usize, i);
@@ -442,6 +464,7 @@ impl<'c> Exec<'c> {
             Pending,
             End,
             Fd(a10::AsyncFd),
+            Unit,
             Count(usize),
             Err(Option<i32>, String),
         }
@@ -453,6 +476,12 @@ impl<'c> Exec<'c> {
                     Poll::Pending => Got::Pending,
                     Poll::Ready(None) => Got::End,
                     Poll::Ready(Some(Ok(fd))) => Got::Fd(fd),
+                    Poll::Ready(Some(Err(e))) => Got::Err(e.raw_os_error(), e.to_string()),
+                },
+                Fut::Pollable(f) => match f.as_mut().poll_next(&mut cx) {
+                    Poll::Pending => Got::Pending,
+                    Poll::Ready(None) => Got::End,
+                    Poll::Ready(Some(Ok(()))) => Got::Unit,
                     Poll::Ready(Some(Err(e))) => Got::Err(e.raw_os_error(), e.to_string()),
                 },
                 Fut::Count(f) => match f.as_mut().poll(&mut cx) {
@@ -506,8 +535,10 @@ impl<'c> Exec<'c> {
                 MKind::SendZc { .. } => abi::OP_SEND_ZC,
                 MKind::SendVecZc { .. } => abi::OP_SENDMSG_ZC,
                 MKind::Write { .. } => abi::OP_WRITE,
+                MKind::Pollable => abi::OP_POLL_ADD,
             };
-            if sqe.opcode != want_op || (self.ops[i].kind == MKind::Accept && sqe.ioprio & abi::ACCEPT_MULTISHOT == 0) {
+            let bad_poll = self.ops[i].kind == MKind::Pollable && (sqe.len & abi::POLL_ADD_MULTI == 0 || Some(sqe.fd) != self.other.as_ref().map(|o| o.1));
+            if sqe.opcode != want_op || bad_poll || (self.ops[i].kind == MKind::Accept && sqe.ioprio & abi::ACCEPT_MULTISHOT == 0) {
                 self.fail("C02", "wrong-request", format!("{name} published {sqe:?}"));
             }
             if self.ops.iter().enumerate().any(|(k, o)| k != i && o.started && o.user_data == sqe.user_data && !(o.final_consumed && o.fut.is_none())) {
@@ -592,6 +623,12 @@ impl<'c> Exec<'c> {
                             self.ops[i].delivered.pop_front();
                             self.ops[i].yielded += 1;
                         }
+                        Got::Unit if item.res >= 0 && self.ops[i].kind == MKind::Pollable => {
+                            // Readiness results carry no value: only their
+                            // number can be checked (none lost, none twice).
+                            self.ops[i].delivered.pop_front();
+                            self.ops[i].yielded += 1;
+                        }
                         Got::Err(raw, _) if item.res < 0 => {
                             if raw != Some(-item.res) {
                                 self.fail("C02", "wrong-value", format!("{name} yielded error {raw:?}, the kernel posted errno {}", -item.res));
@@ -639,7 +676,7 @@ impl<'c> Exec<'c> {
             }
         } else {
             // Single result (zero-copy: after the second completion).
-            let zc = !matches!(self.ops[i].kind, MKind::Write { .. });
+            let zc = self.ops[i].kind.zero_copy();
             let first = if zc { self.ops[i].zc_first } else { self.ops[i].delivered.front().map(|x| x.res) };
             match got {
                 Got::Pending => {
@@ -846,6 +883,20 @@ impl<'c> Exec<'c> {
                 let res = if ok { n as i32 } else { -errno };
                 s.the_ring().complete(serial, res, 0, false);
             }
+            MKind::Pollable => {
+                // Every readiness result is the same poll mask.
+                if ok {
+                    s.the_ring().complete(serial, libc::EPOLLIN, 0, !last);
+                } else {
+                    s.the_ring().complete(serial, -errno, 0, false);
+                }
+                if self.ops[i].fut.is_none() {
+                    self.classes.push("completed-after-drop");
+                }
+                if self.ops[i].in_cq.back().is_some_and(|x| x.res == libc::EPOLLIN) || self.ops[i].delivered.back().is_some_and(|x| x.res == libc::EPOLLIN) {
+                    self.classes.push("identical-adjacent-results");
+                }
+            }
             MKind::SendZc { .. } | MKind::SendVecZc { .. } => {
                 if req.zc_notif_pending {
                     s.the_ring().complete(serial, 0, abi::CQE_F_NOTIF, false);
@@ -886,7 +937,7 @@ impl<'c> Exec<'c> {
         let e = if eintr { libc::EINTR } else { libc::ECANCELED };
         let mut s = sim::sim();
         if s.the_ring().req(serial).is_some_and(|r| !r.done) {
-            let zc = !matches!(self.ops[i].kind, MKind::Accept | MKind::Write { .. });
+            let zc = self.ops[i].kind.zero_copy();
             if zc && notif {
                 // Result with F_MORE; the notification is posted by a later
                 // Post step.
@@ -936,7 +987,7 @@ impl<'c> Exec<'c> {
             if op.fut.is_none() || !op.last_poll_pending || !op.started {
                 continue;
             }
-            let ready_now = if op.kind == MKind::Accept { op.delivered.len() > delivered_before[i] || (op.final_consumed && !before[i].0) } else { op.final_consumed && !before[i].0 };
+            let ready_now = if op.kind.multishot() { op.delivered.len() > delivered_before[i] || (op.final_consumed && !before[i].0) } else { op.final_consumed && !before[i].0 };
             if ready_now {
                 self.classes.push("completion-while-pending");
                 if op.waker.wakes() <= op.wakes_at_poll {
@@ -982,6 +1033,32 @@ pub fn run(case: &MultiCase, ctx: &mut Ctx, prop: &'static str) -> Vec<&'static 
         }
     };
     let fd = world.new_fd();
+    // The ring Pollable operations watch (built second: `the_ring()` stays
+    // the main one).
+    let other = if case.ops.iter().take(4).any(|k| *k == MKind::Pollable) {
+        let r = {
+            let _s = track::scope(track::TAG_A10);
+            a10::Ring::config().with_submission_queue_size(2).build()
+        };
+        match r {
+            Ok(r) => {
+                let ofd = sim::sim().rings.iter().filter(|r| !r.closed).map(|r| r.fd).find(|f| *f != world.ring_fd);
+                match ofd {
+                    Some(ofd) => Some((r, ofd)),
+                    None => {
+                        ctx.infra("second ring not found in the simulator");
+                        return Vec::new();
+                    }
+                }
+            }
+            Err(e) => {
+                ctx.infra(format!("building the second ring failed: {e}"));
+                return Vec::new();
+            }
+        }
+    } else {
+        None
+    };
     let cancel_script: Arc<Mutex<BTreeMap<u64, CancelChoice>>> = Arc::new(Mutex::new(BTreeMap::new()));
     {
         let script = cancel_script.clone();
@@ -1027,7 +1104,7 @@ pub fn run(case: &MultiCase, ctx: &mut Ctx, prop: &'static str) -> Vec<&'static 
             restarts: 0,
         })
         .collect();
-    let mut exec = Exec { world, fd, ops, ctx, prop, events_seen: sim::events_len(), consumed_seqs: BTreeSet::new(), classes: Vec::new(), stop: false, accepted: Vec::new(), cancel_script, ring_gone: false };
+    let mut exec = Exec { world, fd, ops, ctx, prop, events_seen: sim::events_len(), consumed_seqs: BTreeSet::new(), classes: Vec::new(), stop: false, accepted: Vec::new(), cancel_script, ring_gone: false, other };
     for i in 0..exec.ops.len() {
         exec.build(i);
     }
@@ -1115,7 +1192,7 @@ pub fn run(case: &MultiCase, ctx: &mut Ctx, prop: &'static str) -> Vec<&'static 
     }
     sim::sim().cancel_hook = None;
     let mut classes = std::mem::take(&mut exec.classes);
-    let Exec { world, ops, accepted, .. } = exec;
+    let Exec { world, ops, accepted, other, .. } = exec;
     {
         let _s = track::scope(track::TAG_A10);
         drop(ops);
@@ -1130,6 +1207,7 @@ pub fn run(case: &MultiCase, ctx: &mut Ctx, prop: &'static str) -> Vec<&'static 
     {
         let _s = track::scope(track::TAG_A10);
         drop(world);
+        drop(other);
     }
     sim::take_violations();
     track::take_events();
